@@ -25,6 +25,7 @@ CHECKS = {
         design_ref="DESIGN.md §3.7, §4 C20"),
 }
 
+_CS = ' The codec is also used more than once: CodecSeq.tla (the specified codec has no memory; history of calls with calls made to fail half way and results the caller keeps) is model-checked and every history it prints is executed on real codec instances, each result compared with that of the same call made alone.'
 _IF_NOTE = ("Trusted: TLC; testing/synctest fake clock; the export shim, gates and trace points of client/verif_hooks.go and the "
             "projection of the real handler; bounds: N<=3 (all sequential histories to depth 5/6), N<=4 (random walks), thread programs of "
             "2-4 goroutines with 1-4 operations each (all interleavings at gate granularity), free-running rounds bounded by count.")
@@ -114,7 +115,6 @@ CHECKS["C08"] = dict(
     technique="TLA+-enumerated input lattice + round trip through the real compressors + replay of TLC-enumerated call histories (CodecSeq.tla)",
     design_ref="DESIGN.md §4 C08")
 
-_CS = ' The codec is also used more than once: CodecSeq.tla (the specified codec has no memory; history of calls with calls made to fail half way and results the caller keeps) is model-checked and every history it prints is executed on real codec instances, each result compared with that of the same call made alone.'
 _WIRE_NOTE = ("Trusted: the TLA+ transcription of specs/*.spec in WirePrim/WireMsg/WireShapes.tla; the builder/projection in harness/wire.go "
               "(self-checked on every vector: project(build(x)) = x). Value contents beyond the enumerated classes are covered by the random legs only.")
 CHECKS["C01"] = dict(
